@@ -369,20 +369,24 @@ class DualPortSynchronousMemory(Logic):
         w = self.readdata_a.getWidth()
         
         s = f'reg [{w-1}:0] mem [{numcells-1}:0];\n'
+        s += f'reg [{w-1}:0] rreaddata_a;\n'
+        s += f'reg [{w-1}:0] rreaddata_b;\n'
 
         s += 'always @(posedge clk) begin\n'
         s += 'if (write_a) \n'
         s += ' mem[write_address_a] <= writedata_a;\n'
+        s += ' rreaddata_a <= mem[read_address_a];\n'
         s += 'end\n'
 
         s += 'always @(posedge clk) begin\n'
         s += 'if (write_b) \n'
         s += ' mem[write_address_b] <= writedata_b;\n'
+        s += ' rreaddata_b <= mem[read_address_b];\n'
         s += 'end\n'
 
     
-        s += 'assign readdata_a = mem[read_address_a];\n'
-        s += 'assign readdata_b = mem[read_address_b];\n'
+        s += 'assign readdata_a = rreaddata_a;\n'
+        s += 'assign readdata_b = rreaddata_b;\n'
         return s
         
 
